@@ -73,18 +73,20 @@ StrPat(id) == CASE id = ","   -> <<",">>
 RECURSIVE RunOf(_, _, _)
 RunOf(s, i, c) == IF i <= Len(s) /\ s[i] = c THEN 1 + RunOf(s, i + 1, c) ELSE 0
 (* length of the (leftmost-first, greedy) match of the regex that starts exactly at position i; 0 = no match there.  *)
-(* No menu regex matches the empty string.                                                                           *)
+(* One menu regex can match the empty string ("b*", see EmptyOK / CutE below): for it 0 means "only the empty match". *)
 ReLenAt(id, s, i) == CASE id = ","    -> IF s[i] = "," THEN 1 ELSE 0
                        [] id = ", "   -> IF HasAt(s, i, <<",", " ">>) THEN 2 ELSE 0
                        [] id = "TAB"  -> IF s[i] = "TAB" THEN 1 ELSE 0
                        [] id = "[,:]" -> IF s[i] \in {",", ":"} THEN 1 ELSE 0
                        [] id = ",+"   -> RunOf(s, i, ",")
+                       [] id = "b*"   -> RunOf(s, i, "b")
                        [] id = ",|, " -> IF s[i] = "," THEN 1 ELSE 0     \* CODE-DERIVED: leftmost-FIRST, the first alternative that matches wins (not the longest): the blank stays in the next field
                        [] id = "[e~bxv]" -> IF s[i] \in {"e~", "bxv"} THEN 1 ELSE 0
 (* the characters a delimiter occurrence can consist of *)
 DelimChars(d) == CASE d.kind = "awk" -> AwkBlanks
                    [] d.kind = "str" -> {StrPat(d.id)[k] : k \in 1..Len(StrPat(d.id))}
                    [] d.id \in {",", ",+", ",|, "} -> {","}
+                   [] d.id = "b*"      -> {"b"}
                    [] d.id = ", "      -> {",", " "}
                    [] d.id = "TAB"     -> {"TAB"}
                    [] d.id = "[,:]"    -> {",", ":"}
@@ -104,6 +106,22 @@ Cut(d, s, i, b) ==       \* b = start of the field being scanned, i = scan posit
     ELSE LET n == DelimLenAt(d, s, i) IN
          IF n > 0 THEN <<SubSeq(s, b, i + n - 1)>> \o Cut(d, s, i + n, i + n)
          ELSE Cut(d, s, i + 1, b)
+(* A regular expression that also matches the EMPTY string (menu: "b*").  CODE-DERIVED (regexp.FindAllStringIndex):    *)
+(* the matches are found left to right without overlap; at an offset where the delimiter's characters stand the match  *)
+(* is their whole run, elsewhere it is empty - and an empty match counts unless it directly follows the previous       *)
+(* match (the scan then moves on by one CHARACTER, whatever its encoding).  The line is cut after every match: a line   *)
+(* that does not begin with the delimiter gets an EMPTY first field, every later field is one character followed by    *)
+(* the run of delimiter characters after it; the empty line has one empty field.  Still a partition with character     *)
+(* offsets (the property), which is what PartitionOK demands of it like of any other delimiter.                        *)
+EmptyOK(d) == d.kind = "re" /\ d.id = "b*"
+RECURSIVE ScanE(_, _, _, _)
+ScanE(s, pos, prev, begin) ==      \* offsets 0..Len(s): scan position, end of the previous match (-1: none), start of the field
+    IF pos > Len(s) THEN (IF begin < Len(s) THEN <<SubSeq(s, begin + 1, Len(s))>> ELSE <<>>)
+    ELSE LET r == IF pos < Len(s) THEN RunOf(s, pos + 1, "b") ELSE 0 IN
+         IF r > 0 THEN <<SubSeq(s, begin + 1, pos + r)>> \o ScanE(s, pos + r, pos + r, pos + r)
+         ELSE IF pos # prev THEN <<SubSeq(s, begin + 1, pos)>> \o ScanE(s, pos + 1, pos, pos)
+         ELSE ScanE(s, pos + 1, prev, begin)
+CutE(s) == ScanE(s, 0, -1, 0)
 RECURSIVE AwkCut(_, _, _)
 AwkCut(s, i, b) ==
     IF i > Len(s) THEN <<SubSeq(s, b, Len(s))>>
@@ -111,6 +129,7 @@ AwkCut(s, i, b) ==
     ELSE AwkCut(s, i + 1, b)
 FieldTexts(s, d) == IF d.kind = "awk"
                     THEN (LET k == LeadBlanks(s) IN IF k = Len(s) THEN <<>> ELSE AwkCut(s, k + 2, k + 1))
+                    ELSE IF EmptyOK(d) THEN CutE(s)
                     ELSE Cut(d, s, 1, 1)
 FirstOffset(s, d) == IF d.kind = "awk" THEN LeadBlanks(s) ELSE 0
 (* a token = [t |-> text, p |-> number of characters of the line before it] *)
@@ -170,8 +189,11 @@ LastMatchStart(d, s, i, last) ==       \* start of the last regex match (scannin
     ELSE LET n == DelimLenAt(d, s, i) IN
          IF n > 0 THEN LastMatchStart(d, s, i + n, IF i + n - 1 = Len(s) THEN i ELSE 0)
          ELSE LastMatchStart(d, s, i + 1, 0)
+RECURSIVE TrailRun(_, _)
+TrailRun(s, c) == IF s # <<>> /\ s[Len(s)] = c THEN 1 + TrailRun(SubSeq(s, 1, Len(s) - 1), c) ELSE 0
 StripDelim(s, d) ==                     \* the delimiter only
-    IF d.kind = "str" THEN (LET p == StrPat(d.id) IN
+    IF EmptyOK(d) THEN SubSeq(s, 1, Len(s) - TrailRun(s, "b"))     \* the last match that ends the text: the trailing run (or the empty match)
+    ELSE IF d.kind = "str" THEN (LET p == StrPat(d.id) IN
                             IF Len(s) >= Len(p) /\ HasAt(s, Len(s) - Len(p) + 1, p) THEN SubSeq(s, 1, Len(s) - Len(p)) ELSE s)
     ELSE IF d.kind = "re" THEN (LET k == LastMatchStart(d, s, 1, 0) IN IF k > 0 THEN SubSeq(s, 1, k - 1) ELSE s)
     ELSE s
@@ -302,6 +324,12 @@ CutsRight(s, d) ==
                /\ t # <<>> /\ ~Blank(t[1])
                /\ \A j \in 1..(Len(t) - 1) : Blank(t[j]) => Blank(t[j + 1])          \* non-blanks then blanks
                /\ i < n => Blank(t[Len(t)])
+    ELSE IF EmptyOK(d)
+    THEN \A i \in 1..n : LET t == toks[i].t
+                             e == toks[i].p + Len(t) IN
+            /\ (i > 1 => t # <<>> /\ t[1] # "b")                   \* only the first field can be empty or begin with the delimiter
+            /\ \A j \in 2..Len(t) : t[j] = "b"                     \* one character, then delimiter characters only
+            /\ (e = Len(s) \/ s[e + 1] # "b")                       \* all of them
     ELSE \A i \in 1..n :
             LET b == toks[i].p + 1
                 e == toks[i].p + Len(toks[i].t)
